@@ -18,6 +18,10 @@ by single spaces: what white-space processing leaves under a collapsing `white-s
 -/
 import WpModel.Lemmas.LineBreak
 import WpModel.Lemmas.InlineHyphen
+import WpModel.Lemmas.LineVertical
+import WpModel.Lemmas.LineVerticalTB
+import WpModel.Lemmas.InlinePreferred
+import WpModel.Lemmas.LineFloats
 
 namespace Wp.C09
 open Wp Wp.Py Wp.Pango Wp.LB Wp.C09L
@@ -405,5 +409,189 @@ def seedShapePara : IR.Para :=
 
 example : (IR.paragraph seedShapePara).toOption.map (fun ls => ls.map (·.w)) = some [70, 30, 50] := by
   decide +kernel
+
+/-- **content lies inside the block** (ltr): the line box of a text line starts at the block's content
+edge or to its right and — when it is not wider than the block — ends inside it, for every
+`text-align-all` / `text-align-last`, justified or not; a wider line starts at the content edge; the
+text box starts `text-indent` (`posX − lineX`) inside the line and ends with it. -/
+theorem content_inside_block (p : Para) (lineX posX y : Rat) (s : TextSplit) (c : Child) (l : OutLine)
+    (hrtl : p.align.rtl = false) (h : textLine p lineX posX y s c = .ok l) :
+    l.y = y ∧ l.h = p.lineHeight ∧ l.resume = s.resume ∧
+    (l.w ≤ p.width → lineX ≤ l.x ∧ l.x + l.w ≤ lineX + p.width) ∧
+    (p.width < l.w → l.x = lineX) ∧
+    ∃ t cx cw, l.child = some (t, cx, cw) ∧ cx = l.x + (posX - lineX) ∧ cx + cw = l.x + l.w :=
+  C09L.text_line_inside_block p lineX posX y s c l hrtl h
+
+example : ((textLine examplePara 7 7 5 { child := none, resume := some 8, preserved := false }
+    { text := "aaa bbb".toList, width := 70 }).toOption.map (fun l => (l.x, l.w))) = some (19 / 2, 70) := by
+  decide +kernel
+
+/-! ### preferred widths (`layout/preferred.py`) and the shrink-to-fit round trip -/
+
+/-- With no width at all a text without newline is one line as wide as its characters, in every
+`white-space` mode (what `inline_max_content_width` measures). -/
+theorem unconstrained_single_line (heur : Bool) (st : Style) (text : Text) (a b : Bool)
+    (hnl : find text '\n' = none) :
+    splitFirstLineH heur st text .none a b =
+      .ok { length := text.length, resume := none, width := (text.length : Rat) * st.fs, text := text } :=
+  C09L.unconstrained_single_line heur st text a b hnl
+
+/-- **max-content width of a canonical text** (`inline_max_content_width`, whatever `outer` and
+`is_line_start`) is the advance of all its characters. -/
+theorem max_content_of_text (st : Style) (t : Text) (outer ils : Bool) (hfs : 0 ≤ st.fs) (hcan : Canonical t) :
+    IP.maxContentWidth st [.text t] 0 outer ils = .ok ((t.length : Rat) * st.fs) :=
+  C09L.maxContent_text st t outer ils hfs hcan
+
+/-- **shrink-to-fit round trip**: a canonical text laid out in exactly its max-content width is not
+broken (font size a whole number of Pango units, as the real glyph advances are). -/
+theorem max_content_fits_one_line (heur : Bool) (st : Style) (t : Text) (a b : Bool)
+    (hwrap : st.ws.textWrap = true) (hwb : st.wb = .normal) (how : st.ow = .normal)
+    (hfs : 0 < st.fs) (k : Int) (hk : st.fs * 1024 = k) (hcan : Canonical t) :
+    splitFirstLineH heur st t (.fin ((t.length : Rat) * st.fs)) a b =
+      .ok { length := t.length, resume := none, width := (t.length : Rat) * st.fs, text := t } :=
+  C09L.max_content_fits_one_line heur st t a b hwrap hwb how hfs k hk hcan
+
+example : (IP.maxContentWidth { ws := .normal, wb := .normal, ow := .normal, fs := 10 }
+    [.text "aaa bbb ".toList, .box 5 7 true [.text "cc".toList]] 3 true false).toOption = some 115 := by decide +kernel
+example : (IP.minContentWidth { ws := .normal, wb := .normal, ow := .normal, fs := 10 }
+    [.text "aaa bbbb ".toList, .box 5 7 true [.text "cc".toList]] 0 true false false none).toOption = some 40 := by
+  decide +kernel
+
+/-! ### vertical stacking inside and between lines (`Model/LineVertical`) -/
+
+/-- **every box is one line-height high**: the margin box of a text box and of an inline box is the
+used `line-height` of its own style, for every font size, line-height, vertical border and padding
+(the half-leading assignments of `split_text_box` / `split_inline_box`). -/
+theorem box_height_is_line_height (n : LV.VNode) :
+    (LV.build n).marginHeight = (LV.strutLayout (nodeStyle n)).1 :=
+  C09L.build_marginHeight n
+
+/-- **a line is at least one line-height high**, whatever it contains. -/
+theorem line_at_least_line_height (lineSt : LV.VStyle) (kids : List LV.VNode) (posY : Rat) (l : LV.VLine)
+    (h : LV.layoutLine lineSt kids posY = .ok l) : (LV.strutLayout lineSt).1 ≤ l.height :=
+  C09L.line_at_least_line_height lineSt kids posY l h
+
+/-- **no overlap between lines**: in a line without `vertical-align: top | bottom`, every box — at any
+nesting depth, for any font sizes, line-heights, `baseline` / `middle` / `text-top` / `text-bottom` /
+length alignments, borders and paddings — has its margin box inside the line box `[y, y + height]`,
+and the line is placed at the `position_y` it was given.  With `stack` (each line starts where the
+previous one ends) no box can overlap a neighbouring line.  For `top` / `bottom` boxes holding inline
+boxes the statement is false of the code: `Witness.C09.top_aligned_grandchild_left_behind`. -/
+theorem boxes_inside_line_partial (lineSt : LV.VStyle) (kids : List LV.VNode) (posY : Rat) (l : LV.VLine)
+    (hn : noTBNodeL kids = true) (h : LV.layoutLine lineSt kids posY = .ok l) :
+    l.y = posY ∧ ∀ d ∈ allBoxesL l.kids, l.y ≤ d.y ∧ d.y + d.marginHeight ≤ l.y + l.height :=
+  C09L.boxes_inside_line lineSt kids posY l hn h
+
+/-- **no overlap between lines, `top` / `bottom` included**: the same containment when every
+`vertical-align: top | bottom` inline box holds only text — `translate_subtree` then moves all of it,
+and the line is made high enough for the highest such subtree.  This hypothesis is the exact
+boundary of finding vertical-align-top-bottom-subtree: with one inline box inside a `top` box the
+statement fails on the code (`Witness.C09.top_aligned_grandchild_left_behind`).  It subsumes
+`boxes_inside_line_partial` (`safe_of_no_top_bottom`). -/
+theorem boxes_inside_line_top_bottom_partial (lineSt : LV.VStyle) (kids : List LV.VNode) (posY : Rat) (l : LV.VLine)
+    (hn : safeTBNodeL kids = true) (h : LV.layoutLine lineSt kids posY = .ok l) :
+    l.y = posY ∧ ∀ d ∈ allBoxesL l.kids, l.y ≤ d.y ∧ d.y + d.marginHeight ≤ l.y + l.height :=
+  C09L.boxes_inside_line_tb lineSt kids posY l hn h
+
+theorem safe_of_no_top_bottom (kids : List LV.VNode) (h : noTBNodeL kids = true) : safeTBNodeL kids = true :=
+  C09L.safeTBNodeL_of_noTB kids h
+
+def exampleVStyle (fs : Rat) (lh : LV.LineHeight) (va : LV.VAlign) : LV.VStyle :=
+  { fs := fs, lh := lh, va := va, bt := 1, pt := 2, pb := 0, bb := 3,
+    textHeight := fs, textBaseline := fs * 4 / 5, ex := 1 / 2 }
+
+example : noTBNodeL [.text (exampleVStyle 10 .normal .baseline),
+    .box (exampleVStyle 20 (.px 30) .middle) [.text (exampleVStyle 20 (.px 30) .baseline),
+      .box (exampleVStyle 8 (.num 2) (.len 4)) [.text (exampleVStyle 8 (.num 2) .baseline)]]] = true := by decide
+example : (LV.layoutLine (exampleVStyle 10 .normal .baseline) [.text (exampleVStyle 10 .normal .baseline),
+    .box (exampleVStyle 20 (.px 30) .middle) [.text (exampleVStyle 20 (.px 30) .baseline),
+      .box (exampleVStyle 8 (.num 2) (.len 4)) [.text (exampleVStyle 8 (.num 2) .baseline)]]] 5).toOption.map
+    (fun l => (l.y, l.height)) = some (5, 30) := by decide +kernel
+
+/-- a `top` span of 30px line-height and a `bottom` span in a 10px line: the line grows to 30 -/
+example : safeTBNodeL [.text (exampleVStyle 10 .normal .baseline),
+    .box (exampleVStyle 20 (.px 30) .top) [.text (exampleVStyle 20 (.px 30) .baseline)],
+    .box (exampleVStyle 8 (.num 2) .bottom) [.text (exampleVStyle 8 (.num 2) .baseline)]] = true := by decide
+example : (LV.layoutLine (exampleVStyle 10 .normal .baseline) [.text (exampleVStyle 10 .normal .baseline),
+    .box (exampleVStyle 20 (.px 30) .top) [.text (exampleVStyle 20 (.px 30) .baseline)],
+    .box (exampleVStyle 8 (.num 2) .bottom) [.text (exampleVStyle 8 (.num 2) .baseline)]] 5).toOption.map
+    (fun l => (l.y, l.height, (allBoxesL l.kids).map (fun d => (d.y, d.marginHeight)))) =
+    some (5, 30, [(5, 10), (5, 30), (5, 30), (19, 16), (19, 16)]) := by decide +kernel
+
+/-! ### lines in the width left between floats (`Model/LineFloats` on C11's `avoid_collisions`) -/
+
+open Wp.Floats in
+/-- **the gap is free of floats**: wherever `avoid_collisions` puts a line box of strut height `h`,
+every rectangle inside the width it returns and not higher than the strut — of any width, so also the
+line built there afterwards — has empty interior intersection with every float and lies inside the
+containing block.  For every list of floats, every position and size. -/
+theorem gap_free_of_floats (shapes : List Shape) (y w h : Rat) (cb : CB) (hl : cb.rtl = false) (pl : Placement)
+    (ha : avoidCollisions shapes (LF.lineABox y w h) cb false = .ok pl) (hh : 0 < h) (hp : C11.Proper shapes)
+    (x w' h' : Rat) (hx1 : pl.x ≤ x) (hx2 : x + w' ≤ pl.x + pl.avail) (hh' : h' ≤ h) :
+    (∀ s ∈ shapes, ¬ C11.Overlaps x pl.y w' h' s) ∧ cb.cx ≤ x ∧ x + w' ≤ cb.cx + cb.w :=
+  LFL.gap_free_of_floats shapes y w h cb hl pl ha hh hp x w' h' hx1 hx2 hh'
+
+open Wp.Floats in
+/-- **a line inside its gap is clear of the floats.**  The line `get_next_linebox` returns sits at the
+position of its first placement (min-content width of the first line × strut height); if it lies
+horizontally inside the width left there, it overlaps no float over the strut height and is inside the
+block.  The hypothesis is not always true of the code: with a `text-indent` the min-content width of
+later lines is wrong and a line is put into a gap it does not fit
+(`Witness.C09.float_gap_ignores_line_width_with_indent`, finding float-gap-text-indent-later-lines). -/
+theorem line_in_gap_clear_partial (shapes : List Shape) (p : Para) (skip : Option Nat) (y : Rat) (first : Bool)
+    (l : OutLine) (hne : shapes ≠ []) (hp : C11.Proper shapes) (hh : 0 < LF.strutHeight p)
+    (h : LF.nextLine shapes p skip y first = .ok (some l)) :
+    ∃ w0 place, avoidCollisions shapes (LF.lineABox y w0 (LF.strutHeight p)) (LFL.cbOf p) false = .ok place ∧
+      l.y = place.y ∧
+      (place.x ≤ l.x → l.x + l.w ≤ place.x + place.avail → ∀ h' ≤ LF.strutHeight p,
+        (∀ s ∈ shapes, ¬ C11.Overlaps l.x l.y l.w h' s) ∧ p.cbx ≤ l.x ∧ l.x + l.w ≤ p.cbx + p.width) :=
+  LFL.line_in_gap_clear shapes p skip y first l hne hp hh h
+
+/-- **lines next to floats never overlap each other**: each line starts at or below the bottom of the
+line before (floats push lines down, nothing pulls them up), for every list of floats. -/
+theorem float_lines_stacked (shapes : List Floats.Shape) (p : Para) (fuel : Nat) (skip : Option Nat) (y : Rat)
+    (first : Bool) (ls : List OutLine) (h : LF.iterLines shapes p fuel skip y first = some (.ok ls)) :
+    LFL.StackedBelow y ls :=
+  LFL.iterLines_stacked shapes p fuel skip y first ls h
+
+/-- … and each is one used line-height high, or a phantom line box -/
+theorem float_line_heights (shapes : List Floats.Shape) (p : Para) (fuel : Nat) (skip : Option Nat) (y : Rat)
+    (first : Bool) (ls : List OutLine) (h : LF.iterLines shapes p fuel skip y first = some (.ok ls)) :
+    ∀ l ∈ ls, l.h = 0 ∨ l.h = p.lineHeight :=
+  LFL.iterLines_heights shapes p fuel skip y first ls h
+
+/-- **termination next to floats**: `text.length + 2` rounds of `iter_line_boxes` suffice whatever the
+floats are. -/
+theorem float_lines_terminate (shapes : List Floats.Shape) (p : Para) (fuel : Nat) (skip : Option Nat) (y : Rat)
+    (first : Bool) (h1 : 1 ≤ fuel) (h2 : p.text.length + 2 ≤ fuel + skip.getD 0) :
+    LF.iterLines shapes p fuel skip y first ≠ none :=
+  LFL.iterLines_fuel shapes p fuel skip y first h1 h2
+
+/-- **refinement: no float = the plain paragraph.**  With no excluded shape the float-aware
+`get_next_linebox` is line for line the model of `Model/LineBreak` (for which `greedy`, `stack`,
+`content_inside_block` … are proved): the two layers are tied by proof, not only by tests. -/
+theorem no_float_is_plain_paragraph (p : Para) (hl : p.align.rtl = false) : LF.paragraph [] p = paragraph p := by
+  unfold LF.paragraph paragraph
+  rw [LFL.iterLines_no_float p hl]
+  rfl
+
+/-- a paragraph beside a right float 30 wide and 25 high: two shortened lines, then full lines -/
+def floatExamplePara : Para :=
+  { examplePara with text := "aaa bbb ccc dd eeee ff".toList, cbx := 0, width := 80, y := 0,
+                     align := { alignAll := .start, alignLast := none, ws := .normal, rtl := false } }
+
+example : (LF.paragraph [⟨50, 0, 30, 20, .right⟩] floatExamplePara).toOption.map
+    (fun ls => ls.map (fun l => (l.x, l.y, l.w))) = some [(0, 0, 30), (0, 12, 30), (0, 24, 60), (0, 36, 70)] := by
+  decide +kernel
+example : (LF.iterLines [⟨50, 0, 30, 20, .right⟩] floatExamplePara 23 none 0 true).map
+    (fun r => r.toOption.map (fun ls => ls.map (fun l => (l.y, l.h)))) =
+    some (some [(0, 12), (12, 12), (24, 12), (36, 12)]) := by decide +kernel
+example : (Floats.avoidCollisions [⟨50, 0, 30, 20, .right⟩] (LF.lineABox 0 30 12) ⟨0, 80, false⟩ false).toOption
+    = some ⟨0, 0, 50⟩ ∧ C11.Proper [⟨50, 0, 30, 20, .right⟩] := by
+  constructor
+  · decide +kernel
+  · intro s hs; simp at hs; subst hs; decide +kernel
+example : (LF.paragraph [] floatExamplePara).toOption.map (fun ls => ls.map (fun l => (l.y, l.w)))
+    = some [(0, 70), (12, 60), (24, 70)] := by decide +kernel
 
 end Wp.C09
